@@ -566,6 +566,138 @@ pub fn run_lite(case: &LiteCase) -> (Vec<(String, String)>, usize, usize) {
     (v, ghosts, fetched)
 }
 
+// ---------------------------------------------------------------------------
+// (d) two peers hold the longer chain; one of them stops answering fetches after a while. The node
+//     must still converge through the other one.
+// ---------------------------------------------------------------------------
+
+#[derive(Debug, Clone, Serialize, Deserialize, PartialEq, Eq, Hash)]
+pub struct TwoPeerCase {
+    /// blocks beyond genesis the node already has
+    pub p: u8,
+    /// blocks the peers have beyond that
+    pub b: u8,
+    /// the stalling peer answers this many fetches, then never again
+    pub stall_after: u8,
+    /// which of the two peers stalls (0/1) and which connects first (0/1)
+    pub staller: u8,
+    pub first: u8,
+    pub batch: u8,
+}
+
+pub fn run_two_peers(case: &TwoPeerCase) -> (Vec<(String, String)>, usize) {
+    let mut v: Vec<(String, String)> = vec![];
+    let ncfg = NodeCfg { gp: 100, heartbeat: 100, social_stake: 0, loading_completed: true, prune: 8 };
+    let (p, b) = ((case.p as usize).min(8), (case.b as usize).clamp(1, 20));
+    let blocks: Vec<BlockSpec> = (0..p + b).map(|i| bspec(i, None, 250)).collect();
+    let spec = HistSpec { ncfg, treasury: 0, issuance: vec![(0, 5_000_000), (1, 6_000_000)], blocks, gt_policy: true };
+    let built = block_on(build_history(&spec));
+    if built.blocks.len() != 1 + p + b {
+        return (v, 0);
+    }
+    let by_hash: BTreeMap<SaitoHash, &Block> = built.blocks.iter().map(|x| (x.hash, x)).collect();
+    let clock = Arc::new(AtomicU64::new(5_000_000));
+    let mut na = NetNode::new(1, ncfg, clock.clone(), 2, case.batch.max(1) as usize, MemIO::new());
+    let mut peers = [NetNode::new(2, ncfg, clock.clone(), 0, 10, MemIO::new()), NetNode::new(3, ncfg, clock.clone(), 0, 10, MemIO::new())];
+    let _ = na.init();
+    for q in peers.iter_mut() {
+        let _ = q.init();
+        for blk in &built.blocks {
+            q.add_direct(blk.clone());
+        }
+    }
+    for blk in &built.blocks[..=p] {
+        na.add_direct(blk.clone());
+    }
+    let peer_tip = built.blocks.last().unwrap().hash;
+    if peers[0].tip().1 != peer_tip || peers[1].tip().1 != peer_tip {
+        return (v, 0);
+    }
+    let staller = (case.staller % 2) as usize;
+    let mut answered_by_staller = 0usize;
+    let mut fetched_from_honest = 0usize;
+    let mut panicked: Option<(String, String)> = None;
+    macro_rules! chk {
+        ($e:expr) => {
+            if let HandlerOutcome::Panicked(s, m) = $e {
+                panicked = Some((s, m));
+            }
+        };
+    }
+    // the node's static peer slots are 1 and 2; each peer sees the node as connection 10
+    let order: [usize; 2] = if case.first % 2 == 0 { [0, 1] } else { [1, 0] };
+    for k in order {
+        chk!(na.net_event(NetworkEvent::PeerConnectionResult { result: Ok((k as u64 + 1, None)) }));
+        chk!(peers[k].net_event(NetworkEvent::PeerConnectionResult { result: Ok((10, None)) }));
+    }
+    let mut idle = 0;
+    for _step in 0..4000 {
+        if panicked.is_some() {
+            break;
+        }
+        let mut moved = false;
+        for (idx, buf) in na.take_outbox() {
+            if idx == 1 || idx == 2 {
+                moved = true;
+                chk!(peers[idx as usize - 1].net_event(NetworkEvent::IncomingNetworkMessage { peer_index: 10, buffer: buf }));
+            }
+        }
+        for k in 0..2 {
+            chk!(peers[k].pump());
+            for (_i, buf) in peers[k].take_outbox() {
+                moved = true;
+                chk!(na.net_event(NetworkEvent::IncomingNetworkMessage { peer_index: k as u64 + 1, buffer: buf }));
+            }
+            peers[k].io.st.broadcast.lock().unwrap().clear();
+            peers[k].take_fetches();
+        }
+        chk!(na.pump());
+        na.io.st.broadcast.lock().unwrap().clear();
+        for (h, peer, _u, id) in na.take_fetches() {
+            moved = true;
+            let k = (peer as usize).saturating_sub(1).min(1);
+            if k == staller {
+                if answered_by_staller >= case.stall_after as usize {
+                    continue; // never answered
+                }
+                answered_by_staller += 1;
+            } else {
+                fetched_from_honest += 1;
+            }
+            match by_hash.get(&h) {
+                Some(blk) => chk!(na.net_event(NetworkEvent::BlockFetched { block_hash: h, block_id: id, peer_index: peer, buffer: block_bytes(blk) })),
+                None => chk!(na.net_event(NetworkEvent::BlockFetchFailed { block_hash: h, block_id: id, peer_index: peer })),
+            }
+            chk!(na.pump());
+        }
+        if !moved {
+            idle += 1;
+            if idle > 8 {
+                break;
+            }
+            clock.fetch_add(2_500, Ordering::SeqCst);
+            chk!(na.routing_timer(2_500));
+            for k in 0..2 {
+                chk!(peers[k].routing_timer(2_500));
+            }
+        } else {
+            idle = 0;
+        }
+    }
+    if let Some((site, msg)) = panicked {
+        v.push((format!("C15|two_peer_sync_panic|site={site}"), format!("a handler panicked at {site} while syncing from two peers: {msg}")));
+        return (v, fetched_from_honest);
+    }
+    let ta = na.tip();
+    if ta.1 != peer_tip {
+        v.push((
+            "C15|not_converged|two_peers_one_stalls".into(),
+            format!("two peers hold the same chain (height {}), peer {} stops answering after {} fetches, the other answers everything: at quiescence the node is at height {}; {} blocks were fetched from the answering peer", built.blocks.last().unwrap().id, staller + 1, case.stall_after, ta.0, fetched_from_honest),
+        ));
+    }
+    (v, fetched_from_honest)
+}
+
 fn eval_sync(c: &mut Ctx, case: &SyncCase, counting: bool) -> Vec<(String, String)> {
     let (v, info) = run_sync(case);
     if counting {
@@ -593,7 +725,7 @@ fn eval_sync(c: &mut Ctx, case: &SyncCase, counting: bool) -> Vec<(String, Strin
 }
 
 pub fn run(ctx: &mut Ctx) {
-    ctx.rule = "(a) synthetic block rings up to 2e5 high (below/above every fork-id checkpoint) for two chains sharing a prefix of generated length; hashes constructed so that distinct blocks never agree on a whole checkpoint byte pair (the by-design 2^-16 fingerprint collision is outside the domain) while single bytes agree often; oracle: generate_last_shared_ancestor(peer tip, peer fork id) <= true fork height, peer ahead and behind. (b) two nodes built from the real routing/verification/consensus threads: every (prefix p, own suffix a, peer suffix b > a) with p,a,b <= N enumerated under in-order scheduling plus generated (p,a,b) up to 12/6/14 under generated schedules (which message, which of up to 4 pending fetches - any completion order -, which node's internal event next); block fetches are served from the peer's chain; a third of the generated cases (and 36 enumerated ones) have a second round: after convergence the connection drops, the node adds a2 blocks of its own and the peer b2 > a2 blocks on the common tip, and they connect again; oracle at quiescence (after timer ticks) of each round: the syncing node is on the peer's tip, the peer did not move, every block the node lacked was requested. (c) a lite (SPV) node with an empty chain connects to a full peer (chains of 1..24 blocks, payments to the lite key at every mask of positions for small chains, generated beyond; optionally a second connection after the peer grew): after the handshake / ghost-chain request / ghost chain exchange every block of the peer's chain must be indexed by the lite node under the peer's real hash or requested by exactly (hash, id), and nothing it requests may be unknown to the peer. non-trivial: (b) the node must reorganise (a >= 1) and at least one fetch completed out of order; (a) counted by distinct case".into();
+    ctx.rule = "(a) synthetic block rings up to 2e5 high (below/above every fork-id checkpoint) for two chains sharing a prefix of generated length; hashes constructed so that distinct blocks never agree on a whole checkpoint byte pair (the by-design 2^-16 fingerprint collision is outside the domain) while single bytes agree often; oracle: generate_last_shared_ancestor(peer tip, peer fork id) <= true fork height, peer ahead and behind. (b) two nodes built from the real routing/verification/consensus threads: every (prefix p, own suffix a, peer suffix b > a) with p,a,b <= N enumerated under in-order scheduling plus generated (p,a,b) up to 12/6/14 under generated schedules (which message, which of up to 4 pending fetches - any completion order -, which node's internal event next); block fetches are served from the peer's chain; a third of the generated cases (and 36 enumerated ones) have a second round: after convergence the connection drops, the node adds a2 blocks of its own and the peer b2 > a2 blocks on the common tip, and they connect again; oracle at quiescence (after timer ticks) of each round: the syncing node is on the peer's tip, the peer did not move, every block the node lacked was requested. (c) a lite (SPV) node with an empty chain connects to a full peer (chains of 1..24 blocks, payments to the lite key at every mask of positions for small chains, generated beyond; optionally a second connection after the peer grew): after the handshake / ghost-chain request / ghost chain exchange every block of the peer's chain must be indexed by the lite node under the peer's real hash or requested by exactly (hash, id), and nothing it requests may be unknown to the peer. (d) two full peers hold the same longer chain and one of them stops answering block fetches after 0..3 answers (either peer, either connection order, three chain lengths and batch sizes): the node must converge through the answering peer. non-trivial: (b) the node must reorganise (a >= 1) and at least one fetch completed out of order; (a) counted by distinct case".into();
     // (a)
     let n = ctx.tier.pick(3_000u32, 40_000);
     let mut r = runner(ctx.seed ^ 0xC15A, 1);
@@ -699,6 +831,27 @@ pub fn run(ctx: &mut Ctx) {
         }
     }
     ctx.extra.insert("enumerated_lite_syncs".into(), json!(lite_cases));
+    // (d) two peers, one stalls
+    let mut two = 0;
+    for stall_after in 0..=3u8 {
+        for staller in 0..2u8 {
+            for first in 0..2u8 {
+                for (p, b, batch) in [(0u8, 6u8, 2u8), (3, 12, 4), (5, 20, 10)] {
+                    let case = TwoPeerCase { p, b, stall_after, staller, first, batch };
+                    let (viol, f) = run_two_peers(&case);
+                    ctx.evals(b as u64);
+                    two += 1;
+                    if f > 0 {
+                        ctx.class("two_peers_one_stalls:blocks_fetched_from_the_answering_peer");
+                    }
+                    for (k, w) in viol {
+                        ctx.violation(&k, w, json!({"check": "two_peers", "two_peer_case": case}));
+                    }
+                }
+            }
+        }
+    }
+    ctx.extra.insert("two_peer_syncs".into(), json!(two));
     let lstrat = (1u8..24, any::<u32>(), 0u8..6, any::<u8>()).prop_map(|(n, pay_mask, grow, pay_mask2)| LiteCase { n, pay_mask, grow, pay_mask2 });
     let lcases = ctx.tier.pick(60u32, 2_000);
     pbt_run(ctx, "lite_sync", lcases, lstrat, |c, case, counting| {
@@ -721,6 +874,16 @@ pub fn run(ctx: &mut Ctx) {
 }
 
 pub fn replay(ctx: &mut Ctx, v: &serde_json::Value) -> bool {
+    if let Some(tc) = v.get("two_peer_case").cloned() {
+        if let Ok(c) = serde_json::from_value::<TwoPeerCase>(tc) {
+            let (viol, _) = run_two_peers(&c);
+            ctx.evals(c.b as u64);
+            for (k, w) in viol {
+                ctx.violation(&k, w, json!({"check": "two_peers", "two_peer_case": c}));
+            }
+            return true;
+        }
+    }
     let lc = v.get("lite_case").cloned().or_else(|| if v.get("check").and_then(|c| c.as_str()) == Some("lite_sync") { v.get("case").cloned() } else { None });
     if let Some(lc) = lc {
         if let Ok(c) = serde_json::from_value::<LiteCase>(lc) {
